@@ -8,7 +8,7 @@ from ..core import guards
 from ..core import pyfacts as pf
 from ..core.defuse import flow_of
 from ..core.larkfacts import grammar_facts
-from ..core.match import phi_alts, txt
+from ..core.match import canon, phi_alts, txt
 from ..core.source import AnchorMissing
 from .common import DEC, DECGRAMMAR, ENUMS, ckey, fn, returns, stmt_of, where
 
@@ -166,7 +166,7 @@ def c06_1(ctx, ss):
                             keyt = txt(kw["key"]) if "key" in kw else None
                             rev = kw.get("reverse")
                             longest_first = (keyt == "len" and isinstance(rev, ast.Constant) and rev.value is True) or \
-                                            (keyt in ("lambda x: -len(x)", "lambda s: -len(s)", "lambda m: -len(m)") and rev is None)
+                                            (keyt == canon("lambda x: -len(x)") and rev is None)
                             if longest_first:
                                 shape_ok, names_expr = True, it.args[0]
                             else:
